@@ -203,7 +203,10 @@ def _maybe_run_folder(
     run_folder: str | Path | None,
     storage: str | dict[OUTPUT_TYPE, str],
 ) -> Path | None:
-    if run_folder is None and _requires_serialization(storage):
+    # Resolve the storage class(es) first: an unknown storage name raises here, before
+    # the run folder is touched, whether or not a `run_folder` is given.
+    requires_serialization = _requires_serialization(storage)
+    if run_folder is None and requires_serialization:
         run_folder = tempfile.mkdtemp()
         msg = f"{storage} storage requires a `run_folder`. Using temporary folder: `{run_folder}`."
         warnings.warn(msg, stacklevel=2)
